@@ -128,6 +128,14 @@ def lockstep(item):
                         bad.append({'step': r, 'why': 'node %s carries no link in the source state' % nid})
                         continue
                     o = tree.request(nodes, cookie, links[nid], src=src)
+                elif r['op'] == 'click_other':
+                    cookie, links = real[src_]
+                    nid = nodes[r['x'] - 1].uid
+                    if nid not in links:
+                        bad.append({'step': r, 'why': 'node %s carries no link in the source state' % nid})
+                        continue
+                    from TreeDisplay.TreeTag import encode_seq
+                    o = tree.request(nodes, encode_seq([['the-root-of-another-tree', [['zz', [['y']]]]]]), links[nid], src=src)
                 elif r['op'] == 'reload':
                     o = tree.request(nodes, real[src_][0], src=src)
                 else:
